@@ -82,7 +82,7 @@ def obligations(tier: str):
         if T or dec in ("grow",):
             add(f"tree_{dec}_f2_create", fixture="f2", rep="tree", decider=dec, max_depth=2)
             add(f"tree_{dec}_f4_create", fixture="f4", rep="tree", decider=dec, max_depth=3 if not T else 4)
-            add(f"tree_{dec}_f3b_create", fixture="f3b", rep="tree", decider=dec, max_depth=2)
+            add(f"tree_{dec}_f3b_create", fixture="f3b", rep="tree", decider=dec, max_depth=2, timeout=200)
             add(f"tree_{dec}_f5ctx_create", fixture="f5ctx", rep="tree", decider=dec, max_depth=3)
             if dec == "grow":
                 add("tree_grow_f16_create", fixture="f16", rep="tree", decider="grow", max_depth=2)
@@ -115,6 +115,8 @@ def obligations(tier: str):
     # --- tree variation operators
     for fxn in ("f1", "f3") + (("f2", "f4", "f5ctx") if T else ()):
         add(f"tree_grow_{fxn}_mutate", fixture=fxn, rep="tree", decider="grow", max_depth=2, ops=["mutate"])
+        if fxn == "f3" and not T:
+            continue  # two programs over 9 productions with base-type fields: > 250 s; thorough tier (f11 / f1 / f0 crossover stay quick)
         add(f"tree_grow_{fxn}_crossover", fixture=fxn, rep="tree", decider="grow", max_depth=2, ops=["crossover"])
     if T:
         add("tree_grow_f1_mutate_crossover", fixture="f1", rep="tree", decider="grow", max_depth=2, ops=["mutate", "crossover"])
@@ -125,7 +127,11 @@ def obligations(tier: str):
         md = 3 if rep != "dsge" else 4
         add(f"{rep}_f1_create", fixture="f1", rep=rep, decider="grow", max_depth=md if rep != "dsge" else 3, gene_length=gl)
         add(f"{rep}_f3_create", fixture="f3", rep=rep, decider="grow", max_depth=md, gene_length=gl)
-        add(f"{rep}_f3b_create", fixture="f3b", rep=rep, decider="grow", max_depth=2, gene_length=gl)
+        if T or rep == "dsge":
+            add(f"{rep}_f3b_create", fixture="f3b", rep=rep, decider="grow", max_depth=2, gene_length=gl)
+        else:  # one bare base type at a time (the three multiply: wide-range int synthesis alone has ~150 paths)
+            for v in ("BI", "BFB", "BS"):
+                add(f"{rep}_f3b_{v}_create", fixture="f3b", grammar_fn="g_" + v, rep=rep, decider="grow", max_depth=2, gene_length=gl, timeout=250)
         add(f"{rep}_f2_create", fixture="f2", rep=rep, decider="grow", max_depth=2 if rep != "dsge" else 3, gene_length=gl)
         # GE / SGE / stack genes are fully symbolic already at creation, so mapping created genotypes
         # covers every genotype of that shape; variation only matters where it changes shape or gene
